@@ -59,84 +59,75 @@ Definition rd_float (s : bytes) : option (fval * bytes) :=
 
 Definition tag_is (b : byte) (c : string) : bool := bytes_eqb [b] (str c).
 
-Fixpoint rd_value (fuel : nat) (s : bytes) : option (value * bytes) :=
+Fixpoint rd_value (fuel : nat) (s : bytes) : option (cval * bytes) :=
   match fuel with
   | O => None
   | S f =>
     match s with
     | [] => None
     | tag :: r =>
-      if tag_is tag "s" then '(k, r') <-? rd_key r ;; Some (value_from (SString k), r')
-      else if tag_is tag "i" then '(n, r') <-? rd_be 8 0 r ;; Some (value_from (SInt (signed 64 n)), r')
-      else if tag_is tag "f" then '(x, r') <-? rd_float r ;; Some (value_from (SFloat x), r')
-      else if tag_is tag "b" then '(n, r') <-? rd_be 1 0 r ;; Some (value_from (SBool (negb (n =? 0)%N)), r')
-      else if tag_is tag "d" then '(d, r') <-? rd_datetime r ;; Some (value_from (SDatetime d), r')
+      if tag_is tag "s" then '(k, r') <-? rd_key r ;; Some (CScalar (SString k), r')
+      else if tag_is tag "i" then '(n, r') <-? rd_be 8 0 r ;; Some (CScalar (SInt (signed 64 n)), r')
+      else if tag_is tag "f" then '(x, r') <-? rd_float r ;; Some (CScalar (SFloat x), r')
+      else if tag_is tag "b" then '(n, r') <-? rd_be 1 0 r ;; Some (CScalar (SBool (negb (n =? 0)%N)), r')
+      else if tag_is tag "d" then '(d, r') <-? rd_datetime r ;; Some (CScalar (SDatetime d), r')
       else if tag_is tag "A" then
         '(mode, r0) <-? rd_be 1 0 r ;;
         '(n, r1) <-? rd_be 1 0 r0 ;;
-        '(vs, r2) <-? (fix loop (n : nat) (s : bytes) (acc : list value) : option (list value * bytes) :=
+        '(vs, r2) <-? (fix loop (n : nat) (s : bytes) (acc : list cval) : option (list cval * bytes) :=
                          match n with
                          | O => Some (rev acc, s)
                          | S n' => '(v, s') <-? rd_value f s ;; loop n' s' (v :: acc)
                          end) (N.to_nat n) r1 [] ;;
-        Some (if (mode =? 112)%N (* 'p' *) then fold_left array_push vs array_new else array_from_iter vs, r2)
+        Some (if (mode =? 112)%N (* 'p' *) then CArrPush vs else CArrCollect vs, r2)
       else if tag_is tag "I" then
         '(mode, r0) <-? rd_be 1 0 r ;;
         '(n, r1) <-? rd_be 1 0 r0 ;;
-        '(kvl, r2) <-? (fix loop (n : nat) (s : bytes) (acc : list (bytes * value)) : option (list (bytes * value) * bytes) :=
+        '(kvl, r2) <-? (fix loop (n : nat) (s : bytes) (acc : list (bytes * cval)) : option (list (bytes * cval) * bytes) :=
                           match n with
                           | O => Some (rev acc, s)
                           | S n' => '(k, s0) <-? rd_key s ;; '(v, s') <-? rd_value f s0 ;; loop n' s' ((k, v) :: acc)
                           end) (N.to_nat n) r1 [] ;;
-        Some (if (mode =? 105)%N (* 'i' *)
-              then fold_left (fun t kv => inline_insert_api t (fst kv) (snd kv)) kvl inline_new
-              else inline_from_iter kvl, r2)
+        Some (if (mode =? 105)%N (* 'i' *) then CInlInsert kvl else CInlCollect kvl, r2)
       else None
     end
   end.
 
-(* tbody into the table `t0` *)
-Fixpoint rd_item (fuel : nat) (s : bytes) : option (item * bytes) :=
+Fixpoint rd_item (fuel : nat) (s : bytes) : option (citem * bytes) :=
   match fuel with
   | O => None
   | S f =>
-    let tbody (t0 : tbl) (s : bytes) : option (tbl * bytes) :=
+    let tbody (s : bytes) : option (list (bytes * citem) * bytes) :=
         '(n, r1) <-? rd_be 1 0 s ;;
-        (fix loop (n : nat) (s : bytes) (t : tbl) : option (tbl * bytes) :=
+        (fix loop (n : nat) (s : bytes) (acc : list (bytes * citem)) : option (list (bytes * citem) * bytes) :=
            match n with
-           | O => Some (t, s)
-           | S n' => '(k, s0) <-? rd_key s ;; '(it, s') <-? rd_item f s0 ;; loop n' s' (tbl_insert t k it)
-           end) (N.to_nat n) r1 t0 in
+           | O => Some (rev acc, s)
+           | S n' => '(k, s0) <-? rd_key s ;; '(it, s') <-? rd_item f s0 ;; loop n' s' ((k, it) :: acc)
+           end) (N.to_nat n) r1 [] in
     match s with
     | [] => None
     | tag :: r =>
-      if tag_is tag "V" then '(v, r') <-? rd_value (List.length r) r ;; Some (IValue v, r')
-      else if tag_is tag "T" then '(t, r') <-? tbody tbl_new r ;; Some (ITable t, r')
+      if tag_is tag "V" then '(v, r') <-? rd_value (List.length r) r ;; Some (CValue v, r')
+      else if tag_is tag "T" then '(l, r') <-? tbody r ;; Some (CTable l, r')
       else if tag_is tag "O" then
         '(n, r1) <-? rd_be 1 0 r ;;
-        (fix loop (n : nat) (s : bytes) (a : item) : option (item * bytes) :=
-           match n with
-           | O => Some (a, s)
-           | S n' => '(t, s') <-? tbody tbl_new s ;; loop n' s' (aot_push a t)
-           end) (N.to_nat n) r1 aot_new
+        '(ts, r2) <-? (fix loop (n : nat) (s : bytes) (acc : list (list (bytes * citem)))
+                         : option (list (list (bytes * citem)) * bytes) :=
+                         match n with
+                         | O => Some (rev acc, s)
+                         | S n' => '(l, s') <-? tbody s ;; loop n' s' (l :: acc)
+                         end) (N.to_nat n) r1 [] ;;
+        Some (CAot ts, r2)
       else None
     end
   end.
 
-Definition rd_tbody (t0 : tbl) (s : bytes) : option (tbl * bytes) :=
-  '(n, r1) <-? rd_be 1 0 s ;;
-  (fix loop (n : nat) (s : bytes) (t : tbl) : option (tbl * bytes) :=
-     match n with
-     | O => Some (t, s)
-     | S n' => '(k, s0) <-? rd_key s ;; '(it, s') <-? rd_item (List.length s0) s0 ;; loop n' s' (tbl_insert t k it)
-     end) (N.to_nat n) r1 t0.
-
-(* DocumentMut::new() + inserts into the root, or DocumentMut::from(Table::new() + inserts) *)
+(* doc := mode tbody: the root table of the document *)
 Definition rd_doc (s : bytes) : option tbl :=
   match s with
   | mode :: r =>
-    match rd_tbody (if tag_is mode "f" then tbl_new else doc_root_new) r with
-    | Some (t, []) => Some t
+    match rd_item (S (List.length r)) (x54 :: r) with      (* the body has the syntax of a 'T' item *)
+    | Some (CTable l, []) => Some (eval_doc (tag_is mode "f") l)
     | _ => None
     end
   | [] => None
@@ -237,7 +228,8 @@ Definition cmd_build (script : bytes) : bytes :=
 
 Definition cmd_val (script : bytes) : bytes :=
   match rd_value (List.length script) script with
-  | Some (v, []) =>
+  | Some (c, []) =>
+    let v := eval_value c in
     let text := display_value v in
     let real := display_value (render_value float_text v) in
     str "t=" ++ show_hex text ++ str " rt=" ++
